@@ -26,10 +26,6 @@ Definition fmin (l : list float) : option float :=
 Definition same_row (a b : lrow) : bool :=
   (l_kid a =? l_kid b) && (l_pos a =? l_pos b)%float.
 
-(* rlist_on_delete, fired once per deleted row: version+1, mtime, len-1 *)
-Definition trig_list_delete (now : Z) (kid : Z) (n : Z) (d : db) : db :=
-  if n =? 0 then d else
-  upd_key_id kid (fun r => with_len (with_mtime (with_ver r (k_ver r + n)) now) (opt_add (k_len r) (- n))) d.
 (* rlist_on_update, fired once per updated row: version+1, mtime *)
 Definition trig_list_update (now : Z) (kid : Z) (n : Z) (d : db) : db :=
   if n =? 0 then d else
@@ -111,30 +107,35 @@ Definition insert_pos (d : db) (kid : Z) (pivot : option bytes) (after : bool) :
       end
   end.
 
-(* insert(): returns (n, err); a missing pivot gives (-1, ErrNotFound) *)
+(* insert(): sqlInsertKey, then sqlInsertAfter / sqlInsertBefore, then
+   sqlInsert.  Returns (n, err); a missing pivot -- or a list without rows, into
+   which "insert ... select ... from rlist where kid = ? limit 1" inserts
+   nothing -- gives (-1, ErrNotFound) before anything has been written. *)
 Definition list_insert (now : Z) (key : bytes) (pivot elem : value) (after : bool)
   : db -> db * out :=
   fun d =>
     match to_bytes pivot, to_bytes elem with
     | None, _ | _, None => (d, out_both (VI 0) EValueType)
     | Some pivotb, Some elemb =>
-        let '(d1, r) := sql_insert now key d in
-        match r with
-        | Err e => (d1, out_both (VI 0) e)
-        | Ok None => (d1, out_both (VI 0) ENotFound)
-        | Ok (Some k) =>
-            match k_len k with
-            | None => (d1, out_both (VI 0) (ESql SqScanNull))
-            | Some n =>
-                (* "insert ... select ... from rlist where kid = ? limit 1":
-                   nothing is inserted into a list without rows *)
-                match list_rows d1 (k_id k) with
-                | [] => (d1, out_ok (VI n))
-                | _ =>
-                    let '(d2, w) := insert_row (k_id k) (insert_pos d1 (k_id k) pivotb after) elemb d1 in
-                    match w with
-                    | Ok _ => (d2, out_ok (VI n))
-                    | Err (ESql (SqNotNull "rlist.pos")) => (d2, out_both (VI (-1)) ENotFound)
+        match live_key now d key T_LIST with
+        | None => (d, out_both (VI 0) ENotFound)
+        | Some k0 =>
+            match list_rows d (k_id k0) with
+            | [] => (d, out_both (VI (-1)) ENotFound)
+            | _ =>
+                let '(d1, w) := insert_row (k_id k0) (insert_pos d (k_id k0) pivotb after) elemb d in
+                match w with
+                | Err (ESql (SqNotNull "rlist.pos")) => (d1, out_both (VI (-1)) ENotFound)
+                | Err e => (d1, out_both (VI 0) e)
+                | Ok _ =>
+                    let '(d2, r) := sql_insert now key d1 in
+                    match r with
+                    | Ok (Some k) =>
+                        match k_len k with
+                        | Some n => (d2, out_ok (VI n))
+                        | None => (d2, out_both (VI 0) (ESql SqScanNull))
+                        end
+                    | Ok None => (d2, out_both (VI 0) (ESql SqScanNull))
                     | Err e => (d2, out_both (VI 0) e)
                     end
                 end
